@@ -85,6 +85,8 @@ func (u *decodeUnit) cycle(cycle int, app risc.Application) {
 		}
 		if runner.InstructionType() == risc.Ret {
 			u.ret = true
+			// Nothing behind a return is decoded, not even in this cycle
+			return
 		}
 	}
 }
